@@ -213,6 +213,8 @@ class Unit:
         return ex.heap[attr]
 
     def ref_attr(self, ex, base: Sym, attr):
+        if "%s.%s" % (base.cls, attr) in self.contract.heap:       # per-class heap field ('Cls.attr': kind)
+            attr = "%s.%s" % (base.cls, attr)
         if attr in self.contract.heap:
             kind = self.contract.heap[attr]
             h = self.heap_arrays(ex, attr)
@@ -228,6 +230,8 @@ class Unit:
             return VFunc(key, "unmodelled")
         if spec is None:
             raise GenError("attribute %s of ref %s has no spec (%s)" % (attr, base.cls, key))
+        if spec.kind == "custom":           # attribute whose value / kind depends on the object (handler decides, may branch)
+            return spec.handler(ex, None, [base], {})
         if spec.kind == "attr":
             rk = spec.ret
             if rk.startswith("list[") or rk.startswith("opt[list["):
@@ -256,6 +260,8 @@ class Unit:
         return self.call_callee(ex, key, spec, [recv] + list(args), kwargs, node, method=True)
 
     def ref_setattr(self, ex, base, attr, v):
+        if "%s.%s" % (base.cls, attr) in self.contract.heap:
+            attr = "%s.%s" % (base.cls, attr)
         if attr in self.contract.heap:
             kind = self.contract.heap[attr]
             h = self.heap_arrays(ex, attr)
@@ -579,9 +585,14 @@ class Unit:
             if pure:
                 ek = rk[5:-1]
                 fl = ex.th.uf("call#len_" + tag, *([z.sort() for z in zs] + [Int]))
-                fa = ex.th.uf("call#arr_" + tag, *([z.sort() for z in zs] + [z3.ArraySort(Int, ex.sort_of(ek))]))
                 ex.pc.append(fl(*zs) >= 0)
-                return VList(fl(*zs), fa(*zs), ex.elem_of(ek))
+                el = ex.elem_of(ek)
+                if isinstance(el, tuple):        # list of tuples: one array-valued UF per component
+                    arrs = tuple(ex.th.uf("call#arr%d_%s" % (i, tag), *([z.sort() for z in zs] + [z3.ArraySort(Int, ex.sort_of(p))]))(*zs)
+                                 for i, p in enumerate(el))
+                    return VList(fl(*zs), arrs, el)
+                fa = ex.th.uf("call#arr_" + tag, *([z.sort() for z in zs] + [z3.ArraySort(Int, ex.sort_of(ek))]))
+                return VList(fl(*zs), fa(*zs), el)
             return ex.fresh(rk, tag)
         if not pure:
             return ex.fresh(rk, tag)
